@@ -51,9 +51,6 @@ func (k Keeper) HandleTimeoutOrder(ctx sdk.Context, orderId uint64) {
 
 	// all shard completes
 	if timeoutCount == 0 {
-		if nearEnd {
-			return
-		}
 		for _, shardId := range uncompletedShards {
 			k.order.RemoveShard(ctx, shardId)
 		}
